@@ -140,6 +140,12 @@ func (h *HttpServer) handleOAuthCallback(w http.ResponseWriter, r *http.Request)
 		SameSite: http.SameSiteLaxMode,
 	}
 
+	// The cookie's return URL was validated when the cookie was packed, but
+	// by whichever instance packed it: instances that share the signing key
+	// need not share the allow-list. Only send the token to an origin THIS
+	// instance accepts; anything else falls back to the same-origin redirect.
+	returnTo = validateReturnTo(returnTo, pkce.allowedReturnOrigins)
+
 	// External frontend: redirect with token + OAuth metadata in URL fragment
 	if returnTo != "" {
 		separator := "#"
